@@ -44,6 +44,10 @@ impl<'a> System<'a> for RvSys {
         // order of rvin events is the order of arrival
         {
             let mut l = rv.log.lock().unwrap();
+            if *rv.entered.lock().unwrap() >= rv.width {
+                // a further frame of the same dispatcher (async_repeat): the rendezvous is over
+                return;
+            }
             l.push(json!({"ev":"rvin","s":self.id}));
             *rv.entered.lock().unwrap() += 1;
             rv.cv.notify_all();
